@@ -18,7 +18,7 @@ def sealed_world(rnd, nested_p=0.4, multi_gen_p=0.4, patterns_p=0.25, no_dirhash
 
     pats = []
     if rnd.random() < patterns_p:
-        pats = rnd.sample(["*.tmp", "*.bak", "tmp", "A", "*.mov", "keep.bak", "s/"], rnd.randint(1, 2))
+        pats = rnd.sample(["*.tmp", "*.bak", "tmp", "A", "*.mov", "keep.bak", "s/", ".*"], rnd.randint(1, 2))
         if rnd.random() < 0.4:
             # order matters: a negation re-includes what an earlier pattern excluded
             pats = list(rnd.choice([["*.txt", "!a.txt"], ["*.tmp", "!data.tmp"], ["*.bak", "!keep.bak"], ["*.mov", "!A001.mov"], ["d*", "!d e.txt"], ["*.txt", "!*.txt"]]))
